@@ -31,6 +31,7 @@ type vfCaseC07 struct {
 
 func vfGenC07Session(t *rapid.T) vfCaseC07 {
 	c := vfCaseC07{Srv: vfGenSrvCfg(t)}
+	vfMaybeReadOnly(t, &c.Srv)
 	c.Srv.CloseKeepsRead = rapid.Bool().Draw(t, "closekeepsread")
 	c.Srv.HOpts.OpenFile = false
 	c.Sync = []vfReq{{T: "OPEN", P: 0, Pflags: 1}, {T: "OPEN", P: 13, Pflags: 1}, {T: "OPEN", P: 8, Pflags: 0x1a}, {T: "OPENDIR", P: 1}}
